@@ -4,8 +4,9 @@ from harness import ll_common as ll
 PROPERTY = "C03"
 STATEFUL = True
 READY = True
-THEOREMS = ["C03.recCheck_iff", "C03.accepted_no_cycle", "C03.stack_bound", "C03.stack_bound_parse",
-            "C03.run_terminates", "C03.parse_terminates", "C03.parse_total"]
+THEOREMS = ["C03.recCheck_iff", "C03.accepted_no_cycle", "C03.user_cycle_iff", "C03.accepted_user_acyclic",
+            "C03.rejected_user_cyclic", "C03.stack_bound", "C03.stack_bound_parse",
+            "C03.run_terminates", "C03.parse_terminates", "C03.parse_total", "C03.parse_from_total"]
 RULE = ("one case = one generated grammar (unbiased / mostly non-left-recursive / shaped / LL(1)-ish / hidden-recursion / DFS-bookkeeping "
         "generators, names permuted), constructed with smart_factorization True and False, each followed by every token "
         "string up to the tier's length plus sampled sentences; the real constructor and parse run under a line-event "
@@ -14,8 +15,10 @@ RULE = ("one case = one generated grammar (unbiased / mostly non-left-recursive 
 TRUSTED = ["re (lexemes are found by the harness with the tokenizer's own pattern)",
            "sys.settrace: the depth of the parse stack at every push is compared with the bound of C03.stack_bound_parse "
            "((|tokens|+1)*(symbols+3)); a line-event budget (constructor 10^6, parse 3*10^7) is only a backstop"]
-ASSUMPTIONS = ["the equivalence 'cycle in the factorised dictionary <=> the user's grammar is left-recursive' is not a theorem; "
-               "it is covered by the oracle (reference test on the user's productions) on every generated grammar"]
+ASSUMPTIONS = ["'GrammarIsRecursive is raised exactly when ...' is a theorem at the level of the recursion check and of the user's "
+               "dictionary (C03.recCheck_iff + C03.user_cycle_iff: cycle of the factorised dictionary <=> cycle of the user's "
+               "productions w.r.t. their least nullable set); that the earlier stages of the constructor never raise "
+               "GrammarIsRecursive themselves is covered by the correspondence only"]
 BUDGET = 1000000          # line events of the constructor
 PARSE_BUDGET = 30000000    # backstop only; the observable for a run-away parse is the stack bound
 
@@ -39,7 +42,7 @@ def oracle(case, replies):
                     return "missed-recursion: a symbol reaches itself without consuming a token, constructor says %r (smart=%s)" % (rep, smart)
                 if not ref and rep == "err GrammarIsRecursive":
                     return "false-alarm: no symbol reaches itself without consuming a token, GrammarIsRecursive raised (smart=%s)" % smart
-        elif op == "p" and ok:
+        elif op in ("p", "ps") and ok:
             if rep == "err StackBoundExceeded":
                 return ("stack-grows-without-bound: the parse stack exceeds (|tokens|+1)*(number of symbols+3) frames "
                         "on input %r" % ll.dec_p(line))
@@ -47,6 +50,8 @@ def oracle(case, replies):
                 return "parse-does-not-terminate: budget of %d line events exceeded on input %r" % (PARSE_BUDGET, ll.dec_p(line))
             if rep == "skipped-after-overrun":
                 continue
+            if op == "ps" and rep == "err AssertionError":
+                continue                 # start_symbol_name is not a key of prods_map
             if not (rep.startswith("tree ") or rep == "err ParsingError"):
                 return "parse-raises: %s on input %r" % (rep[:60], ll.dec_p(line))
     return None
@@ -78,13 +83,16 @@ observable = ll.observable
 
 LEVEL_TEXT = ("Kernel-checked on the executable model, for ALL grammars and inputs: the recursion check answers "
               "GrammarIsRecursive iff some symbol of the (factorised) dictionary reaches itself behind nullables, for every "
-              "visiting order / assignment of names, and never anything else (C03.recCheck_iff); every accepted grammar "
+              "visiting order / assignment of names, and never anything else (C03.recCheck_iff), and that holds iff the "
+              "productions the user wrote are left recursive (C03.user_cycle_iff, accepted_user_acyclic, "
+              "rejected_user_cyclic); every accepted grammar "
               "terminates on every token list, returns a tree or raises ParsingError, never IndexError (C03.parse_terminates, "
-              "C03.parse_total) and its stack stays below (|tokens|+1)*B (C03.stack_bound_parse) - no assumption on the input. "
+              "C03.parse_total; with an explicit start symbol C03.parse_from_total) and its stack stays below (|tokens|+1)*B "
+              "(C03.stack_bound_parse) - no assumption on the input. "
               "model = code: constructor outcome and parse results compared on generated grammars (names permuted, hidden-"
               "recursion shapes) with the real constructor and parse under a line-event budget; the pre-fix tree 59c8825~1 is "
               "reported as a VIOLATION by oracle and correspondence.")
 LEVEL_NOTE = ("Trusted: Lean kernel (axioms propext, Classical.choice, Quot.sound), harness adapter/oracle, sampled "
-              "correspondence, sys.settrace budget as the observable of non-termination. Transfer of left recursion between the "
-              "user's and the factorised dictionary rests on the oracle.")
+              "correspondence; observable of a run-away parse = stack depth above the bound of the theorem (sys.settrace), "
+              "line budgets only as backstop.")
 TECHNIQUE = "Lean 4 theorems (DFS invariant with blackening order as rank; well-founded 4-tuple measure for the stack machine) + differential testing under a step budget"
